@@ -627,3 +627,25 @@ fn run(ctx: &Ctx) {
     ctx.run("pktline", pkt_strategy(), ctx.cases(100_000, 3_000_000), |c: &PktCase| check_pkt(ctx, c));
     ctx.run("frames", frame_strategy(14), ctx.cases(100_000, 3_000_000), |c: &FrameCase| check_frames(ctx, c));
 }
+
+// ---------------------------------------------------------------------------
+// Entry point for the coverage-guided target (/verif/harness/fuzz, target `git_request`)
+// ---------------------------------------------------------------------------
+
+thread_local! {
+    static FUZZ_CTX: Ctx = Ctx::new("C13", Tier::Thorough, 0, 0, 1);
+}
+
+/// One libFuzzer iteration: arbitrary bytes as the start of a git stream (request header). The parser may
+/// accept or reject, it must not panic (libFuzzer's panic hook aborts, which saves the input).
+pub fn fuzz_git_request(data: &[u8]) {
+    let cut = data.len().min(4);
+    let c = PktCase { prefix: data[..cut].to_vec(), body: data[cut..].to_vec() };
+    FUZZ_CTX.with(|ctx| {
+        if let Err(f) = check_pkt(ctx, &c) {
+            if !ctx.is_known(&f.sig) {
+                panic!("VIOLATION property=C13 signature={} {}", f.sig, f.msg);
+            }
+        }
+    });
+}
